@@ -59,6 +59,12 @@ func registry() map[string]*propSpec {
 		"C06": {Scenario: "enc", Make: func() scen.Scenario { return &scen.Enc{Mode: "c06"} }, QuickRuns: 200000, ThorRuns: 20000000,
 			Rule: "each run = a sequence of WriteToken/WriteValue calls drawn legal with p=0.7 given the reference push-down model (all token kinds, ill-formed strings, NaN/Inf, zero token, raw values valid/truncated/duplicate-bearing/garbage, deep mode 9998..10001) x option set; every call's verdict vs the documented grammar, observers after every call vs the model, rejected calls must not move observers, twin run with the rejected calls removed must match, delivered bytes at depth 0 vs the reference serializer. distinct = hash of (call 2-grams, number of rejected calls, final depth, options); non-trivial = at least one rejected call.",
 			Real: realAll, Stub: stubIO},
+		"C14": {Scenario: "arshal-merge", Make: func() scen.Scenario { return &scen.MergeChain{} }, QuickRuns: 300000, ThorRuns: 15000000, Chunk: 10000, ResetCache: true,
+			Rule: "each run = a reflect-built merge-capable type (structs, maps with string/int keys, pointers, slices, arrays, interfaces, scalars, byte slices/arrays; depth <= 4) and a chain of 2-4 JSON texts fitted to it with nulls, missing and unknown members (optionally short arrays under UnmarshalArrayFromAnyLength), applied to one long-lived value by separate Unmarshal calls and by successive UnmarshalDecode calls over one chunked stream; whenever every step succeeds the result must deep-equal Unmarshal(merge(j1..jk)) into a zero value, merge being the recursive object union computed by the reference (knows nothing about Go kinds). distinct = hash of (type, chain length, merged text); non-trivial = chain of >= 3 texts or a chunked read landed.",
+			Real: realAll, Stub: stubIO},
+		"C19": {Scenario: "scope", Make: func() scen.Scenario { return &scen.Scope{} }, QuickRuns: 200000, ThorRuns: 10000000, ResetCache: false,
+			Rule: "each run = a user-owned Encoder or Decoder with 0-2 coder-level options, inside an array or object, and 2-9 items: tokens and MarshalEncode/UnmarshalDecode calls with 0-3 per-call options (semantic, formatting, duplicate/UTF-8, marshaler/unmarshaler functions, v1 options) that are made to fail by a write/read fault, a peer error or panic, a conversion error, or a refused option change; a snapshot of GetOption over every public option on coder.Options() must be identical before and after each call and equal to the coder's own; successful calls must have used coder+call options (size of the value equals Marshal's); a JoinOptions snapshot taken inside a callback must not change afterwards. Only this call-scoping clause of C19 is decided by simulation; two pure clauses (a later false option wins; DefaultOptionsV2 cancels v1 options) are sampled as a by-product. distinct = hash of (side, coder options, items with their call options); non-trivial = a call failed.",
+			Real: realAll, Stub: append([]string{"user marshal methods (scripted peers)"}, stubIO...)},
 		"C17": {Scenario: "arshal-dispatch", Make: func() scen.Scenario { return &scen.Dispatch{} }, QuickRuns: 300000, ThorRuns: 20000000, ResetCache: true,
 			Rule: "each run = one of 81 generated marshal method-set types ({absent,value,pointer receiver} x {MarshalJSONTo,MarshalJSON,AppendText,MarshalText}) or 27 unmarshal method-set types x position kind (top, pointer, field, non-addressable field, slice/array element, map value, map key, inside interface, pointer field, nil pointer) x 0-3 option-supplied functions of interface type (MarshalToFunc/MarshalFunc, UnmarshalFromFunc/UnmarshalFunc, flat or nested Join) x a behaviour per candidate (ok, ErrUnsupported before/after use, error, zero/two values, open container, Reset) x a cache history of 0-4 earlier calls; the peers log which user code ran; a rule model of the documented order predicts the log, success/failure and the representation; inside the call the caller's options must be visible and Reset must panic. distinct = hash of (side, method set, position, functions, warm-up, behaviours); non-trivial = a misbehaving candidate or a warm cache.",
 			Real: realAll, Stub: []string{"user marshal/unmarshal methods and functions (generated peers interpreting a scripted behaviour)", "arshaler cache contents (reset per run, then warmed in a drawn order)"}},
